@@ -675,6 +675,12 @@ fn case_small(bytes: &[u8], ctx: &mut Ctx) -> CaseResult {
     let b = vals[vi].clone();
     let other = vals[(vi + 1) % 24].clone();
 
+    ctx.render(|| {
+        format!(
+            "atom {} built with representation {mode} (0 new_atom, 1 new_small_number, 2 substr of heap buffer, 3 concat, 4 substr of small number), alone and inside 8 pair/list/DAG contexts, shared and expanded",
+            hx(&b)
+        )
+    });
     // the constants themselves, against the definition
     let want_atom = mth::hash_atom(&b);
     let small = canonical_small(&b).filter(|v| *v < 24);
@@ -788,13 +794,6 @@ fn case_small(bytes: &[u8], ctx: &mut Ctx) -> CaseResult {
         f.write(&b).write(&[0xff, mode]);
         ctx.nontrivial(f.finish());
     }
-    ctx.render(|| {
-        format!(
-            "atom {} built with representation {mode} ({}), alone and inside 8 pair/list/DAG contexts, shared and expanded",
-            hx(&b),
-            if obs_heap { "heap buffer" } else { "inline small atom" }
-        )
-    });
     Ok(())
 }
 
@@ -993,6 +992,15 @@ fn case_tree(bytes: &[u8], ctx: &mut Ctx) -> CaseResult {
         (gentree::build(&mut a, &t, root, mode), mode.atoms)
     };
     let o = observe(&a, node, None);
+    ctx.render(|| {
+        format!(
+            "shape {shape_name}({param}), {} pairs in allocator, {} build, atoms mode {}{amode}, {junk} junk pairs first, expanded size {expanded}: {}",
+            o.pairs,
+            if share_eff { "shared" } else { "expanded" },
+            if own_builder { "own" } else { "gentree" },
+            t.render(root)
+        )
+    });
     let backrefs = o.pairs <= BACKREFS_MAX_PAIRS;
     let model_ser = if plain { Some(t.serialize(root)) } else { None };
     let (own_br, own_refs) = match serialize_backrefs(&t, root, &pol) {
@@ -1088,15 +1096,6 @@ fn case_tree(bytes: &[u8], ctx: &mut Ctx) -> CaseResult {
         f.write(&want).write(&[shape as u8, u8::from(share_eff), amode, u8::from(own_builder)]);
         ctx.nontrivial(f.finish());
     }
-    ctx.render(|| {
-        format!(
-            "shape {shape_name}({param}), {} pairs in allocator, {} build, atoms mode {}{amode}, {junk} junk pairs first, expanded size {expanded}: {}",
-            o.pairs,
-            if share_eff { "shared" } else { "expanded" },
-            if own_builder { "own" } else { "gentree" },
-            t.render(root)
-        )
-    });
     ctx.ran_dry(s.ran_dry());
     Ok(())
 }
@@ -1550,6 +1549,15 @@ fn case_curry(bytes: &[u8], ctx: &mut Ctx) -> CaseResult {
     extend_hashes(&t, &mut hashes);
     let want = hashes[cur as usize];
 
+    ctx.render(|| {
+        format!(
+            "curry p = {} with {nargs} args [{}] ({} build, atoms {amode})",
+            t.render(p),
+            args.iter().map(|x| t.render(*x)).collect::<Vec<_>>().join(", "),
+            if share { "shared" } else { "expanded" }
+        )
+    });
+
     // 1. from hashes alone (model hashes as input)
     let ph = TreeHash::new(hashes[p as usize]);
     let ahs: Vec<TreeHash> = args.iter().map(|x| TreeHash::new(hashes[*x as usize])).collect();
@@ -1627,14 +1635,6 @@ fn case_curry(bytes: &[u8], ctx: &mut Ctx) -> CaseResult {
     if nargs >= 1 {
         ctx.nontrivial(Fnv::new().write(&want).finish());
     }
-    ctx.render(|| {
-        format!(
-            "curry p = {} with {nargs} args [{}] ({} build, atoms {amode})",
-            t.render(p),
-            args.iter().map(|x| t.render(*x)).collect::<Vec<_>>().join(", "),
-            if share { "shared" } else { "expanded" }
-        )
-    });
     ctx.ran_dry(s.ran_dry());
     Ok(())
 }
@@ -1767,7 +1767,8 @@ fn main() {
         rule: "cases are CLVM trees (vcore gen_tree; one-sided/patterned chains to 50 000 pairs; lists to 20 000 items; layered DAGs to 400 levels; atoms 0..23, 24, 25, 0x80, `00 05`, empty, ...) built into a clvmr Allocator shared or expanded with atoms via new_atom / new_small_number / new_substr of a heap buffer / new_concat / substr of a small number; histories of 1-8 such trees in one allocator (later trees link nodes of earlier ones) hashed through one TreeCache under block (run_block_generator2), interleaved and free-form schedules with unrelated allocations in between; curried programs with 0-8 arguments; singleton fast-forward scenarios. NON-TRIVIAL = some pair node is reached at least twice in the allocator (memo path), or a small integer 0..23 / the empty atom is stored as a heap buffer, or at least two trees were hashed through one cache, or a curried program has at least one argument; DISTINCT by tree hash x shape x build mode (trees), by the sequence of operations and hashes (histories), by curried hash (curry).",
         assumptions: &[
             "reference = vcore::model::treehash (sha2 crate, bottom-up over the arena); it calls nothing under test",
-            "clvmr's node_to_bytes / node_to_bytes_backrefs / Allocator are trusted as the producers of inputs (node_to_bytes is cross-checked against the model's own serialisation for trees up to 50 000 expanded nodes)",
+            "clvmr's node_to_bytes / node_to_bytes_backrefs / Allocator are trusted as the producers of inputs (node_to_bytes is cross-checked against the model's own serialisation whenever it is used)",
+            "clvmr's node_to_bytes_backrefs is super-linear, so it is only used on trees with at most 256 distinct pairs; larger trees get a back-reference serialisation from the harness' own linear serialiser, whose output is cross-checked by decoding it with clvmr and hashing it with clvmr's own ObjectCache/treehash (not clvm-utils)",
             "a TreeCache is only ever used with the one allocator whose nodes it has seen, and that allocator is never rolled back (as in run_block_generator2)",
             "plain tree_hash and node_to_bytes are skipped when the expanded tree exceeds 60 000 nodes or 1.9 MB serialised (they are exponential on DAGs by design)",
             "curry_and_treehash is private: observed through fast_forward_singleton on valid-by-construction scenarios; results other than Ok / ParentCoinMismatch / *HashMismatch are discarded (C19 owns them)",
@@ -1807,6 +1808,8 @@ fn main() {
                     "dag>60-levels",
                     "build:expanded",
                     "backrefs-used",
+                    "own-backrefs-used:pairs>10000",
+                    "clvmr-backrefs-skipped(pairs>256)",
                     "plain-routines-skipped(expanded>60k)",
                 ],
             },
